@@ -1162,7 +1162,7 @@ class MixturePrior:
 
         if isinstance(population_size, dict):
             population_size = demography.PopulationSizeHistory(**population_size)
-        elif isinstance(population_size, (int, float, np.ndarray)):
+        elif isinstance(population_size, (int, float, np.number, np.ndarray)):
             population_size = demography.PopulationSizeHistory(population_size)
 
         natural_timepoints = None
@@ -1214,7 +1214,7 @@ class MixturePrior:
 
         if isinstance(population_size, dict):
             population_size = demography.PopulationSizeHistory(**population_size)
-        elif isinstance(population_size, (int, float, np.ndarray)):
+        elif isinstance(population_size, (int, float, np.number, np.ndarray)):
             population_size = demography.PopulationSizeHistory(population_size)
 
         ts = self.tree_sequence
